@@ -301,7 +301,27 @@ class Check:
             print("VIOLATION property=%s replay=%s%s" % (
                 self.pid, path, " no-failing-input-found" if nofail else ""), flush=True)
         self.log("done in %.1fs: %s" % (wall, "VIOLATION" if self.violations else "ok"))
+        if not self.violations:
+            self.trim_work()
         sys.exit(1 if self.violations else 0)
+
+    def trim_work(self, keep_lines=2000, big=20 * 1024 * 1024):
+        """After a clean run the case/result files are only needed as samples: keep their head.
+        (Disk space is limited; a thorough run writes gigabytes.)"""
+        for r, _, fs in os.walk(self.work):
+            for f in fs:
+                if f.rsplit(".", 1)[-1] not in ("cases", "impl", "model"):
+                    continue
+                p = os.path.join(r, f)
+                try:
+                    if os.path.getsize(p) <= big:
+                        continue
+                    with open(p, "rb") as src:
+                        head = b"".join(src.readline() for _ in range(keep_lines))
+                    with open(p, "wb") as dst:
+                        dst.write(head)
+                except OSError:
+                    pass
 
 
 # ---------------------------------------------------------------------- helpers
